@@ -104,8 +104,8 @@ Definition t_content (t : option tentry) : option bytes := match t with Some (TF
 
 Definition fd (delete : bool) (o : option node) (t : option tentry) : bool :=
   o_file o && match t with None => delete | Some _ => negb (same_file o t) end.
-Definition dd (delete : bool) (o : option node) (t : option tentry) : bool :=
-  o_dir o && match t with None => delete | Some (TFile _ _) => true | Some (TDir _ _) => false end.
+Definition dd (delete : bool) (o : option node) (t : option tentry) (hn : bool) : bool :=
+  o_dir o && match t with None => delete && negb hn | Some (TFile _ _) => true | Some (TDir _ _) => false end.
 Definition fc (o : option node) (t : option tentry) : bool := t_file t && negb (same_file o t).
 Definition dc (o : option node) (t : option tentry) : bool := t_dir t && negb (o_dir o).
 Definition fch (o : option node) (t : option tentry) : bool :=
@@ -123,20 +123,20 @@ Ltac classify :=
              let E := fresh "E" in destruct (list_N_eqb b c) eqn:E; cbn; rewrite ?E; cbn
          end; try reflexivity.
 
-Lemma files_delete_change delete k o t :
-  files_delete (change_actions false delete k o t) = if fd delete o t then [k] else [].
+Lemma files_delete_change delete k o t hn :
+  files_delete (change_actions false delete k o t hn) = if fd delete o t then [k] else [].
 Proof. classify. Qed.
-Lemma dirs_delete_change delete k o t :
-  dirs_delete (change_actions false delete k o t) = if dd delete o t then [k] else [].
+Lemma dirs_delete_change delete k o t hn :
+  dirs_delete (change_actions false delete k o t hn) = if dd delete o t hn then [k] else [].
 Proof. classify. Qed.
-Lemma files_create_change delete k o t :
-  files_create (change_actions false delete k o t) = if fc o t then [(k, t_content t)] else [].
+Lemma files_create_change delete k o t hn :
+  files_create (change_actions false delete k o t hn) = if fc o t then [(k, t_content t)] else [].
 Proof. classify. Qed.
-Lemma dirs_create_change delete k o t :
-  dirs_create (change_actions false delete k o t) = if dc o t then [k] else [].
+Lemma dirs_create_change delete k o t hn :
+  dirs_create (change_actions false delete k o t hn) = if dc o t then [k] else [].
 Proof. classify. Qed.
-Lemma files_chmod_change delete k o t :
-  files_chmod (change_actions false delete k o t) = if fch o t then [k] else [].
+Lemma files_chmod_change delete k o t hn :
+  files_chmod (change_actions false delete k o t hn) = if fch o t then [k] else [].
 Proof. classify. Qed.
 
 (* ---- list plumbing ------------------------------------------------------------------------------ *)
@@ -168,7 +168,7 @@ Section Plan.
   Let acts := fst (compare false delete old tr t).
 
   Definition raw_acts : list action :=
-    flat_map (fun k => change_actions false delete k (lookup old k) (lookup t' k)) keys.
+    flat_map (fun k => change_actions false delete k (lookup old k) (lookup t' k) (has_node t' k)) keys.
 
   Lemma compare_eq :
     compare false delete old tr t = (filter (fun a => negb (is_dirs_create_in failed a)) raw_acts, dedup failed).
@@ -183,7 +183,7 @@ Section Plan.
     rewrite flat_map_filter_nil by (intros [] H; simpl in *; auto; discriminate).
     unfold raw_acts. rewrite flat_map_flat_map. apply flat_map_ext. intros k. apply files_delete_change.
   Qed.
-  Lemma dirs_delete_acts : dirs_delete acts = flat_map (fun k => if dd delete (lookup old k) (lookup t' k) then [k] else []) keys.
+  Lemma dirs_delete_acts : dirs_delete acts = flat_map (fun k => if dd delete (lookup old k) (lookup t' k) (has_node t' k) then [k] else []) keys.
   Proof.
     unfold acts. rewrite compare_eq. cbn [fst]. unfold dirs_delete at 1.
     rewrite flat_map_filter_nil by (intros [] H; simpl in *; auto; discriminate).
@@ -212,7 +212,7 @@ Section Plan.
     - intros H. exists k. repeat split; auto. apply In_keys. left. unfold fd in H.
       destruct (lookup old k); [discriminate|]. discriminate.
   Qed.
-  Lemma In_dirs_delete k : In k (dirs_delete acts) <-> dd delete (lookup old k) (lookup t' k) = true.
+  Lemma In_dirs_delete k : In k (dirs_delete acts) <-> dd delete (lookup old k) (lookup t' k) (has_node t' k) = true.
   Proof.
     rewrite dirs_delete_acts, (flat_map_sel _ (fun k => k)). split.
     - intros [k0 [_ [H ->]]]. exact H.
@@ -358,7 +358,8 @@ Qed.
 
 Definition cf_step (lt : link) (avail : list bytes) (acc : ws * errs) (kc : key * option bytes) : ws * errs :=
   let '(w1, e1) := create_file lt avail (fst acc) kc in (w1, snd acc ++ e1).
-Lemma create_files_eq lt avail l w : create_files lt avail l w = fold_left (cf_step lt avail) l (w, []).
+Lemma create_files_eq lt avail l w :
+  create_files lt avail l w = fold_left (cf_step lt avail) l (make_parents l w, []).
 Proof. reflexivity. Qed.
 Lemma cf_step_fst lt avail acc kc : fst (cf_step lt avail acc kc) = fst (create_file lt avail (fst acc) kc).
 Proof. unfold cf_step. now destruct (create_file lt avail (fst acc) kc). Qed.
@@ -372,6 +373,18 @@ Proof.
   induction l as [|[k1 c1] l IH]; intros acc k H; simpl; auto.
   rewrite IH by (intros; eapply H; right; eauto).
   rewrite cf_step_fst. apply create_file_other. eapply H. now left.
+Qed.
+
+Lemma make_parents_other l : forall w k,
+  (forall k' c, In (k', c) l -> is_prefix k k' = false) -> lookup (make_parents l w) k = lookup w k.
+Proof.
+  unfold make_parents. induction l as [|[k1 c1] l IH]; intros w k H; simpl; auto.
+  rewrite IH by (intros; eapply H; right; eauto). destruct c1; auto.
+  rewrite makedirs_spec. destruct (lookup w k); auto.
+  destruct (mem_key k (prefixes (parent k1))) eqn:E; auto.
+  apply mem_key_spec, prefixes_is_prefix in E as [E _].
+  rewrite (is_prefix_trans _ _ _ E (is_prefix_removelast k1)) in (H k1 (Some b)). 
+  specialize (H k1 (Some b) (or_introl eq_refl)). discriminate.
 Qed.
 
 Lemma lookup_set_exec_shared c w k :
@@ -511,9 +524,11 @@ Proof.
   { unfold ws3. rewrite makedirs_fold_other; auto. intros k' Hk' Hp. apply In_dirs_create in Hk'. fold t' in Hk'.
     apply prefixes_is_prefix in Hp as [Hp _]. rewrite (NT _ Hp) in Hk'. discriminate. }
   assert (E4 : lookup (fst (ws4 lt avail p w)) k = lookup w k).
-  { unfold ws4. rewrite create_files_eq, create_files_other; auto. intros k' c Hk'.
-    apply In_files_create in Hk' as [Hk' _]. fold t' in Hk'. destruct (is_prefix k k') eqn:P; auto.
-    rewrite (NT _ P) in Hk'. discriminate. }
+  { assert (NP : forall k' c, In (k', c) (files_create (fst p)) -> is_prefix k k' = false).
+    { intros k' c Hk'. apply In_files_create in Hk' as [Hk' _]. fold t' in Hk'. destruct (is_prefix k k') eqn:P; auto.
+      rewrite (NT _ P) in Hk'. discriminate. }
+    unfold ws4. rewrite create_files_eq, create_files_other; auto. cbn [fst].
+    rewrite make_parents_other; auto. }
   rewrite apply_ws, chmod_files_other.
   - exact E4.
   - intros H. apply reorder_In, In_files_chmod in H. fold t' in H. rewrite NK in H. discriminate.
